@@ -337,3 +337,94 @@ Proof. vm_compute. split; reflexivity. Qed.
 Example C20_example_rejects :
   inv_b (mkQM [0%Qc; 0%Qc] [[(1, qc 1 1)]; []] 0%Qc [INTEGER; INTEGER]) = false.
 Proof. vm_compute. reflexivity. Qed.
+
+(* ------------------------------------------------------------------------
+   Additions of Model/AdjMore.v and the multi-object step of Model/ChkC20.v
+   (the step function the correspondence check runs): bulk removal, clear,
+   copy / move / swap as value permutations.
+   ------------------------------------------------------------------------ *)
+From Dimod Require Import Model.AdjMore Model.ChkC20 Proofs.AdjMoreFacts.
+Local Open Scope nat_scope.
+
+(* utils.h remove_by_index on sorted distinct indices = erase one index at a
+   time, the largest first (fold_right erases the last list element first) *)
+Theorem C20_remove_by_index_is_iterated_erase :
+  forall (A : Type) (l : list A) (vs : list nat),
+    StronglySorted lt vs ->
+    remove_by_index 0 l vs = fold_right (fun v acc => del_nth v acc) l vs.
+Proof. exact @remove_by_index_iterated. Qed.
+Print Assumptions C20_remove_by_index_is_iterated_erase.
+
+(* an index the cursor has already passed (unsorted / duplicate input) is silently ignored *)
+Theorem C20_remove_by_index_ignores_stale_index :
+  forall (A : Type) (loc : nat) (l : list A) (v : nat) (vs : list nat),
+    v < loc -> remove_by_index loc l (v :: vs) = l.
+Proof. exact @remove_by_index_stale. Qed.
+Print Assumptions C20_remove_by_index_ignores_stale_index.
+
+Theorem C20_remove_by_index_length :
+  forall (A : Type) (l : list A) (vs : list nat),
+    StronglySorted lt vs -> Forall (fun v => v < length l) vs ->
+    length (remove_by_index 0 l vs) = length l - length vs.
+Proof. exact @remove_by_index_length. Qed.
+Print Assumptions C20_remove_by_index_length.
+
+(* remove_variables keeps the three parallel vectors of a model the same length *)
+Theorem C20_remove_variables_lengths :
+  forall vs m,
+    StronglySorted lt vs -> Forall (fun v => v < nvars m) vs ->
+    length (adj m) = nvars m -> length (vts m) = nvars m ->
+    nvars (remove_variables_sorted vs m) = nvars m - length vs
+    /\ length (adj (remove_variables_sorted vs m)) = nvars m - length vs
+    /\ length (vts (remove_variables_sorted vs m)) = nvars m - length vs.
+Proof. exact remove_variables_sorted_lengths. Qed.
+Print Assumptions C20_remove_variables_lengths.
+
+(* base operations, clear, copy, move (source cleared or re-assigned), swap and
+   reads keep the invariant of EVERY object, for any history from the initial objects *)
+Theorem C20_value_ops_preserve_inv :
+  forall st o, value_op o -> all_inv st -> all_inv (fst (xstep st o)).
+Proof. exact value_ops_preserve_inv. Qed.
+Print Assumptions C20_value_ops_preserve_inv.
+
+Theorem C20_value_ops_reachable_partial :
+  forall ops, Forall value_op ops ->
+    all_inv (fold_left (fun st o => fst (xstep st o)) ops init_state).
+Proof. exact value_ops_reachable. Qed.
+Print Assumptions C20_value_ops_reachable_partial.
+
+Theorem C20_swap_involutive :
+  forall st a b, a < length st -> b < length st ->
+    fst (xstep (fst (xstep st (XSwap a b))) (XSwap a b)) = st.
+Proof. exact swap_involutive. Qed.
+Print Assumptions C20_swap_involutive.
+
+Theorem C20_clear_is_empty :
+  forall st s, s < length st ->
+    Inv (sm (get (fst (xstep st (XClear s))) s))
+    /\ nvars (sm (get (fst (xstep st (XClear s))) s)) = 0
+    /\ sb (get (fst (xstep st (XClear s))) s) = [].
+Proof. exact clear_is_empty. Qed.
+Print Assumptions C20_clear_is_empty.
+
+(* non-trivial data: bulk removal of {1,3} from the 5-variable example, unsorted argument,
+   equals removing 3 then 1, and keeps the invariant; dense construction; substitute_variables *)
+Definition ex5 : qm :=
+  fold_left cstep
+    [CAddVar BINARY; CAddVar INTEGER; CAddVar SPIN; CAddVar INTEGER; CAddVar REAL;
+     CAddQuad 0 1 (qc 1 2); CAddQuad 1 1 (qc 5 1); CAddQuad 3 1 (qc 7 1); CAddQuad 4 3 (qc 3 1);
+     CAddQuad 2 4 (qc (-2) 1); CAddQuad 0 3 (qc 1 4); CAddLin 3 (qc 9 1)] empty_qm.
+
+Example C20_example_bulk_removal :
+  remove_variables [3; 1] ex5 = remove_variable 1 (remove_variable 3 ex5)
+  /\ Inv (remove_variables [3; 1] ex5)
+  /\ adj (remove_variables [3; 1] ex5) = [ []; [(2, qc (-2) 1)]; [(1, qc (-2) 1)] ].
+Proof. vm_compute. repeat split; reflexivity. Qed.
+
+Example C20_example_dense_and_substitute :
+  Inv (add_quadratic_from_dense 3 [qc 1 1; qc 2 1; 0%Qc; qc 1 2; qc 3 1; 0%Qc; 0%Qc; qc (-1) 1; qc 4 1]
+         (resize INTEGER 3 empty_qm))
+  /\ Inv (substitute_variables (qc 2 1) (qc (-1) 1) ex5)
+  /\ fst (remove_interactions (fun u v _ => (u =? 1) || (v =? 1)) ex5)
+     = fst (remove_interaction 1 3 (fst (remove_interaction 1 1 (fst (remove_interaction 0 1 ex5))))).
+Proof. vm_compute. repeat split; reflexivity. Qed.
